@@ -17,7 +17,8 @@ RULE = (
     "tract implies an error flag. The typing predicate also runs as an "
     "icontract class invariant on TwpRgeFinder, SecFinder, ChunkParser, "
     "PLSSParser, TractParser, SecUnpacker, LotUnpacker. (B) triggers: C01 "
-    "descriptions with at most one trigger phrase per kind (well, depth, "
+    "descriptions with one trigger phrase per kind, or two different wordings "
+    "of one kind 10-70 characters apart (well, depth, "
     "including, less_except, insofar) inserted atomically at a word boundary "
     "outside every Twp/Rge and section spelling, under modes {default, "
     "segment, sec_within, both, sec_colon_cautious, sec_colon_required, "
@@ -26,13 +27,15 @@ RULE = (
     "description; (B) every case. Distinct by (text, settings)."
 )
 ASSUMPTIONS = [
-    "One inserted phrase per kind (a second occurrence may legitimately be "
-    "folded into the first one's context window); kinds already present in "
-    "the generated blocks are not inserted again.",
+    "A second wording of a kind may legitimately be folded into the first "
+    "one's context window: what is demanded is that its key word appears in "
+    "SOME context of that kind. Kinds already present in the generated "
+    "blocks are not inserted again.",
     "Flags are compared by presence / as multisets, never by order.",
 ]
 MIN_NONTRIVIAL = {'quick': 5000, 'thorough': 120000}
 REQUIRED_MONITORS = ['boundary:typing', 'boundary:sharing', 'trigger',
+                     'trigger:second-of-a-kind',
                      'invariant:SecFinder', 'invariant:TwpRgeFinder',
                      'invariant:ChunkParser', 'invariant:PLSSParser',
                      'invariant:TractParser', 'invariant:SecUnpacker',
@@ -54,6 +57,8 @@ TRIGGERS = {
     'insofar': [('insofar as it lies there', 'insofar'),
                 ('only in so far as covered', 'in so far')],
 }
+FILLER = ['parcel', 'homestead', 'meadow', 'orchard', 'pasture', 'and', 'the',
+          'old', 'upper', 'a', 'of', 'mill', 'yard', 'x']
 # The harness' own detectors for kinds already present in a text.
 PRESENT = {
     'well': re.compile(r'\bwell', re.I),
@@ -204,8 +209,19 @@ def gen_trigger_case(rng):
     chosen = sorted(rng.sample(pts, min(len(kinds), len(pts))), reverse=True)
     inserted = []
     out = text
+    pair_kind = kinds[0] if kinds and rng.random() < 0.3 else None
     for kind, pos in zip(kinds, chosen):
         phrase, key = rng.choice(TRIGGERS[kind])
+        second = None
+        if kind == pair_kind:
+            # Two wordings of the same kind, 10-70 characters of ordinary
+            # words apart: each must show up in a context of that kind.
+            second = rng.choice([x for x in TRIGGERS[kind] if x[1] != key])
+            gap, want = '', rng.randint(10, 70)
+            while len(gap) < want:
+                gap += rng.choice(FILLER) + ' '
+            gap = gap[:want].strip() or 'x'
+            phrase = f"{phrase} {gap} {second[0]}"
         # Atomic insertion at a position computed on the ORIGINAL text
         # (descending order keeps earlier positions valid).
         if pos == 0:
@@ -218,6 +234,9 @@ def gen_trigger_case(rng):
         where = 'start' if pos == 0 else 'end' if pos == len(text) else 'inner'
         inserted.append({'kind': kind, 'key': key, 'phrase': phrase,
                          'pos': pos, 'where': where})
+        if second:
+            inserted.append({'kind': kind, 'key': second[1], 'phrase': phrase,
+                             'pos': pos, 'where': where, 'second': True})
     mode = rng.choice(MODES)
     if mode == 'FORCED':
         mode = base['layout']
@@ -255,6 +274,8 @@ def run_trigger(case, ctx, rep, pytrs, rec):
         unused_txt = ' '.join(u[1] for e in seg for u in e['unused_blocks'])
         for ins in case['inserted']:
             ctx.hit('trigger')
+            if ins.get('second'):
+                ctx.hit('trigger:second-of-a-kind')
             kind, key = ins['kind'], ins['key']
             lines = [c for f, c in d.w_flag_lines if f == kind]
             ok = kind in d.w_flags and any(key.lower() in c.lower()
